@@ -67,6 +67,13 @@ type InSitu struct {
 /* -------------------------------------------------------------------------- */
 
 func QRstep(H, U Matrix, p, q int, inSitu *InSitu) {
+  qrStep(H, U, p, q, inSitu, false)
+}
+
+// QR step with the Rayleigh shift, or (eigenvalueShift) with that eigenvalue
+// of the trailing 2x2 block as shift, which is closer to its last diagonal
+// element (the block must have real eigenvalues)
+func qrStep(H, U Matrix, p, q int, inSitu *InSitu, eigenvalueShift bool) {
 
   var u Matrix
 
@@ -89,6 +96,30 @@ func QRstep(H, U Matrix, p, q int, inSitu *InSitu) {
 
   // shift
   t3.Set(H22.At(n-1, n-1))
+  if eigenvalueShift && n >= 2 {
+    // block [a b; c d], shift = d - bc/(r + sign(r) sqrt(r^2 + bc)), r = (a-d)/2
+    r  := NullScalar(t3.Type())
+    bc := NullScalar(t3.Type())
+    z  := NullScalar(t3.Type())
+    r .Sub(H22.At(n-2, n-2), H22.At(n-1, n-1))
+    r .Div(r, ConstFloat64(2.0))
+    bc.Mul(H22.At(n-2, n-1), H22.At(n-1, n-2))
+    z .Mul(r, r)
+    z .Add(z, bc)
+    if z.GetFloat64() > 0.0 {
+      z.Sqrt(z)
+    } else {
+      z.SetFloat64(0.0)
+    }
+    if r.GetFloat64() < 0.0 {
+      z.Neg(z)
+    }
+    z.Add(r, z)
+    if z.GetFloat64() != 0.0 {
+      bc.Div(bc, z)
+      t3.Sub(t3, bc)
+    }
+  }
   for i := 0; i < n; i++ {
     g := H22.At(i, i)
     g.Sub(g, t3)
@@ -314,21 +345,13 @@ func qrAlgorithm(inSitu *InSitu, epsilon float64) (Matrix, Matrix, error) {
     if (h11-h22)*(h11-h22) + 4*h12*h21 < 0.0 {
       continue
     }
-    // run QR steps until convergence
-    for k := 0; ; k++ {
-      if k > maxIterations {
-        return nil, nil, fmt.Errorf("QR algorithm did not converge")
-      }
-      h11 := h.ConstAt(i  ,i  ).GetFloat64()
-      h21 := h.ConstAt(i+1,i  ).GetFloat64()
-      h22 := h.ConstAt(i+1,i+1).GetFloat64()
-      if math.Abs(h21) <= epsilon*(math.Abs(h11) + math.Abs(h22)) {
-        h.At(i+1,i).SetFloat64(0.0)
-        break
-      } else {
-        QRstep(h, u, i, n-i-2, inSitu)
-      }
+    // the block has real eigenvalues: a QR step with an eigenvalue of the
+    // block as shift makes it upper triangular (QR steps with the Rayleigh
+    // shift do not converge if the two eigenvalues (nearly) coincide)
+    if math.Abs(h21) > epsilon*(math.Abs(h11) + math.Abs(h22)) {
+      qrStep(h, u, i, n-i-2, inSitu, true)
     }
+    h.At(i+1,i).SetFloat64(0.0)
   }
   return h, u, nil
 }
